@@ -98,7 +98,7 @@ def setup(prior, stale, corruption):
             fill(proj.add_version(ident, ts, files={}), "prior %s %d" % (ident, ts))
     else:
         from conductor.execution.version_index import VersionIndex
-        VersionIndex.create_or_load(proj.out / "version_index.sqlite")._conn.close()
+        VersionIndex.create_or_load(proj.out / "version_index.sqlite")
     if corruption == "version-already-recorded":
         fill(proj.add_version("//:e", 9, files={}), "prior //:e 9 (same id as in the archive)")
     if corruption == "destination-exists":
